@@ -318,6 +318,14 @@ Theorem C13_e2e_prop_overlap : forall p idem spec cl0 nodes down cs assign frs l
   E2ESpec.prop_overlap idem (option_map fst spec) frs = true.
 Proof. exact E2ESpec_proofs.e2e_check13_prop_overlap. Qed.
 
+(* the class of answers the direct "first real answer wins" predicate ([prop_first_real]) treats as
+   real besides a success: under every built-in retry policy, in every session state, such an error
+   ends its fiber (DontRetry), and it is not ignorable -- `execute` returns it when it completes *)
+Theorem C13_e2e_final_definitive : forall e, E2ESpec.final_definitive e = true ->
+  can_be_ignored (Err (LastAttemptError (E2ESpec.conv_err e))) = false /\
+  forall s idem cl, snd (Retry.decide s (Retry.mk_ri e idem cl)) = Retry.DontRetry.
+Proof. exact E2ESpec_proofs.final_definitive_spec. Qed.
+
 (* non-vacuity (instants in microseconds, interval 30 ms, margin 150 ms) *)
 Definition ex_fr (node arr : N) (a : E2EAttempts.answer) (d : N) :=
   E2EAttempts.mkFrame node Retry.CQuorum arr a d.
@@ -377,6 +385,50 @@ Print Assumptions C13_probe_guided.
 Print Assumptions C13_probe_accept_sound.
 Print Assumptions C13_probe_accept_schedule.
 Print Assumptions C13_probe_accept_complete.
+(* the direct property predicates of the e2e tie on accepting and rejecting observations *)
+Example C13_ex_e2e_predicates :
+  (* not idempotent: two frames in flight at once -- whatever the policy *)
+  E2ESpec.prop_overlap false (Some 2) [ex_fr 2 100 E2EAttempts.AnsOk 300000; ex_fr 0 30100 E2EAttempts.AnsOk 30200] = false /\
+  E2ESpec.prop_overlap false None [ex_fr 2 100 E2EAttempts.AnsOk 300000; ex_fr 0 30100 E2EAttempts.AnsOk 30200] = false /\
+  E2ESpec.prop_overlap false (Some 2) [ex_fr 2 100 E2EAttempts.AnsOk 200; ex_fr 0 30100 E2EAttempts.AnsOk 30200] = true /\
+  (* max_retry_count = 0: one execution; two frames in flight violate 1 + max *)
+  E2ESpec.prop_overlap true (Some 0) [ex_fr 2 100 E2EAttempts.AnsOk 300000; ex_fr 0 30100 E2EAttempts.AnsOk 30200] = false /\
+  E2ESpec.prop_overlap true (Some 1) [ex_fr 2 100 E2EAttempts.AnsOk 300000; ex_fr 0 30100 E2EAttempts.AnsOk 30200] = true /\
+  (* idempotent, max 1: three in flight; two frames in flight on ONE node *)
+  E2ESpec.prop_overlap true (Some 1) [ex_fr 2 100 E2EAttempts.AnsNone 0; ex_fr 0 200 E2EAttempts.AnsNone 0; ex_fr 1 300 E2EAttempts.AnsNone 0] = false /\
+  E2ESpec.prop_overlap true (Some 2) [ex_fr 2 100 E2EAttempts.AnsNone 0; ex_fr 2 200 E2EAttempts.AnsNone 0] = false /\
+  (* first real answer wins: the caller got node 2's success (logged at 400 ms) although node 0's was
+     logged at 30.2 ms; fine when the caller got node 0's, or when the two are within the margin *)
+  E2ESpec.prop_first_real 150000 E2EAttempts.OCompleted (Some 2%N)
+    [ex_fr 2 100 E2EAttempts.AnsOk 400000; ex_fr 0 30100 E2EAttempts.AnsOk 30200] = false /\
+  E2ESpec.prop_first_real 150000 E2EAttempts.OCompleted (Some 0%N)
+    [ex_fr 2 100 E2EAttempts.AnsOk 400000; ex_fr 0 30100 E2EAttempts.AnsOk 30200] = true /\
+  E2ESpec.prop_first_real 150000 E2EAttempts.OCompleted (Some 2%N)
+    [ex_fr 2 100 E2EAttempts.AnsOk 100000; ex_fr 0 30100 E2EAttempts.AnsOk 30200] = true /\
+  (* an ignorable error returned although a definitive one was there long before *)
+  E2ESpec.prop_first_real 150000 (E2EAttempts.OFailed (Fiber.LAttempt (Retry.EDbError Retry.DbOverloaded))) None
+    [ex_fr 2 100 (E2EAttempts.AnsErr (Retry.EDbError Retry.DbInvalid)) 200;
+     ex_fr 0 30100 (E2EAttempts.AnsErr (Retry.EDbError Retry.DbOverloaded)) 400000] = false /\
+  (* an earlier IGNORABLE answer does not have to win *)
+  E2ESpec.prop_first_real 150000 E2EAttempts.OCompleted (Some 0%N)
+    [ex_fr 2 100 (E2EAttempts.AnsErr (Retry.EDbError Retry.DbOverloaded)) 200; ex_fr 0 30100 E2EAttempts.AnsOk 400000] = true /\
+  (* an ignorable error returned while an execution is in flight / while more may be started *)
+  E2ESpec.prop_last_error 2 3 [] 300 (E2EAttempts.OFailed (Fiber.LAttempt (Retry.EDbError Retry.DbOverloaded)))
+    [ex_fr 2 100 (E2EAttempts.AnsErr (Retry.EDbError Retry.DbOverloaded)) 200] = false /\
+  E2ESpec.prop_last_error 0 3 [] 300 (E2EAttempts.OFailed (Fiber.LAttempt (Retry.EDbError Retry.DbOverloaded)))
+    [ex_fr 2 100 (E2EAttempts.AnsErr (Retry.EDbError Retry.DbOverloaded)) 200] = true /\
+  E2ESpec.prop_last_error 2 3 [] 300 (E2EAttempts.OFailed (Fiber.LAttempt (Retry.EDbError Retry.DbInvalid)))
+    [ex_fr 2 100 (E2EAttempts.AnsErr (Retry.EDbError Retry.DbInvalid)) 200] = true /\
+  E2ESpec.prop_last_error 1 3 [] 40000 (E2EAttempts.OFailed (Fiber.LAttempt (Retry.EDbError Retry.DbOverloaded)))
+    [ex_fr 2 100 E2EAttempts.AnsNone 0; ex_fr 0 30100 (E2EAttempts.AnsErr (Retry.EDbError Retry.DbOverloaded)) 30200] = false /\
+  E2ESpec.prop_last_error 1 3 [] 40000 (E2EAttempts.OFailed (Fiber.LAttempt (Retry.EDbError Retry.DbOverloaded)))
+    [ex_fr 2 100 (E2EAttempts.AnsErr (Retry.EDbError Retry.DbOverloaded)) 200;
+     ex_fr 0 30100 (E2EAttempts.AnsErr (Retry.EDbError Retry.DbOverloaded)) 30200] = true /\
+  E2ESpec.final_definitive (Retry.EDbError Retry.DbTruncateError) = false /\
+  E2ESpec.final_definitive (Retry.EDbError Retry.DbInvalid) = true.
+Proof. vm_compute. repeat split; reflexivity. Qed.
+
+Print Assumptions C13_e2e_final_definitive.
 Print Assumptions C13_e2e_gate_model.
 Print Assumptions C13_e2e_gate.
 Print Assumptions C13_e2e_open.
